@@ -22,6 +22,8 @@ eff = {}
 for u in index['units']:
     if set(u['props']) & {'C14', 'C19'}:
         eff[u['ident']] = engine.os_effects(engine.unit_orig_text(u))
+        if 'C19' in u['props']:
+            eff[u['ident'] + ' #order'] = engine.wipe_order(engine.unit_orig_text(u))
 json.dump(eff, open(os.path.join(engine.VERIF, 'effects_baseline.json'), 'w'), indent=1, sort_keys=True)
 print('OS-request frames recorded:', len(eff))
 
